@@ -201,6 +201,13 @@ def ref_eval(tree, store: RefStore):
                 return BINOPS[tree[1]](a, b)
             except ZeroDivisionError:
                 raise
+    if k == 'bool':  # Python's short-circuit and / or: the result is one of the operands
+        a = ref_eval(tree[2], store)
+        if tree[1] == 'and':
+            return a if not a else ref_eval(tree[3], store)
+        return a if a else ref_eval(tree[3], store)
+    if k == 'not':
+        return not ref_eval(tree[1], store)
     if k == 'cmp':
         a = ref_eval(tree[2], store)
         b = ref_eval(tree[3], store)
